@@ -286,6 +286,7 @@ theorem history_inside_head (c : Cfg) (steps : List Step) (s : St) (hi : Inv c s
       | reopen a b cl t f => exact reopen_inside c s a b cl t f hi
       | close a => exact ⟨(close_inside c s a hi).1, (close_inside c s a hi).2.1⟩
       | exit a => exact ⟨(close_inside c s _ hi).1, (close_inside c s _ hi).2.1⟩
+      | «exists» => exact ⟨Touched.refl _ _, hi⟩
       | doer =>
         simp only [step]
         split
@@ -378,7 +379,7 @@ theorem reopen_to_temp_keeps_siblings (c : Cfg) (s : St) (p : P) (clear reuse cl
 /-! ### concrete witnesses and non-vacuity (tests on literals; the unbounded claims are the theorems above) -/
 
 def exCfg (temp filed : Bool) (name : List Nat) : Cfg :=
-  ⟨name, [], [116], temp, filed, false, [[104]], [[116]]⟩      -- head "/h", temp head "/t", fext "t"
+  ⟨name, [], [116], temp, filed, false, [[104]], [[116]], false, false⟩      -- head "/h", temp head "/t", fext "t"
 def exFs : FS := [([[104]], .dir), ([[116]], .dir)]
 def exMain : List Nat := [109]                                      -- "m"
 
